@@ -56,9 +56,7 @@ class UnitProps(mt.PropDict):
         self._scaled = scaled
         self.read = set()
 
-    def __missing__(self, key):
-        if key in self._option_keys or not isinstance(key, str):
-            raise KeyError(key)
+    def _symbol(self, key):
         if key not in UNITS:
             raise EvalError(f"no physical dimension is recorded for property key '{key}'")
         nm = "prop<" + key + ">"
@@ -67,6 +65,12 @@ class UnitProps(mt.PropDict):
         if self._scaled:
             v = _scale(v, UNITS[key])
         self.read.add(key)
+        return v
+
+    def __missing__(self, key):
+        if key in self._option_keys or not isinstance(key, str):
+            raise KeyError(key)
+        v = self._symbol(key)
         self[key] = v
         return v
 
